@@ -60,6 +60,7 @@ type Exec struct {
 	Returned  bool
 	Killed    bool // killed through Process.Kill / Signal (cancellation), not by itself
 	Behaviour string
+	Starter   string // role of the simulated task that started the process
 }
 
 // Log is the list of processes started in the current run.
@@ -418,6 +419,9 @@ func (c *Cmd) Start() error {
 	}
 
 	rec := &Exec{Path: c.Path, Argv: append([]string(nil), c.Args...), StartSim: rt.Cur.Now(), Behaviour: id}
+	if t := rt.Cur.Current(); t != nil {
+		rec.Starter = t.Role
+	}
 	Log = append(Log, rec)
 	p := &Proc{Path: c.Path, Argv: rec.Argv, Env: c.Env, Dir: c.Dir, rec: rec}
 	if c.Stdin != nil {
